@@ -5,7 +5,7 @@
 // caller-supplied event channel; jsonTextValid is the assumed contract of encoding/json (spec/c04.smt2).
 package validator
 
-//@ prelude c04 c18
+//@ prelude c04 c18 c03
 
 //@ func dispatchEvent(event e.Event, eventChan *chan e.Event)
 //@   requires [C11:protocol] eventChan != nil ==> (chanClosed == 0 && ite(evIsStart(event.EventType), !evOpen && evStage(event.EventType) == evNext, evOpen && evCur == evStage(event.EventType)))
@@ -68,3 +68,70 @@ package validator
 
 //@ func Encode(data any) string
 //@   ensures-assumed [C18:lib-function] result == libEncode(data)
+
+// ---- report building (C03) ----------------------------------------------------------------------------------
+// sev(x) below abbreviates x.(map[string]any)["resultSeverity"]; SHACL = "http://www.w3.org/ns/shacl#".
+
+//@ func defineIdRecursively(node *types.ObjectMap, id string)
+//@   requires node != nil
+//@   ensures [C03:only-ids] forall m map[string]any, k string :: k != "@id" ==> (has(m, k) == old(has(m, k)) && m[k] == old(m[k]))
+//@   loop 1 /* for k, v := range *node */
+//@     invariant [C03] forall m map[string]any, k string :: k != "@id" ==> (has(m, k) == old(has(m, k)) && m[k] == old(m[k]))
+//@   loop 2 /* for index, e := range v */
+//@     invariant [C03] forall m map[string]any, k string :: k != "@id" ==> (has(m, k) == old(has(m, k)) && m[k] == old(m[k]))
+
+//@ func buildValidation(level string, id string, raw any) types.ObjectMap
+//@   requires [C17:is-map] is(raw, map[string]any) && raw.(map[string]any) != nil
+//@   ensures [C03:same-node] result == raw.(map[string]any)
+//@   ensures [C03:severity] result["resultSeverity"] == box(string, "http://www.w3.org/ns/shacl#" + strTitle(level))
+//@   ensures [C03:frame] forall m map[string]any, k string :: (k != "@id" && !(m == raw.(map[string]any) && k == "resultSeverity")) ==> (has(m, k) == old(has(m, k)) && m[k] == old(m[k]))
+
+//@ func buildResults(violations []any, warnings []any, infos []any) []any
+//@   requires-assumed [C03:A-OPA4] forall i int, j int :: (0 <= i && i < len(violations) && 0 <= j && j < len(violations) && i != j ==> violations[i] != violations[j]) && (0 <= i && i < len(warnings) && 0 <= j && j < len(warnings) && i != j ==> warnings[i] != warnings[j]) && (0 <= i && i < len(infos) && 0 <= j && j < len(infos) && i != j ==> infos[i] != infos[j])
+//@   requires-assumed [C03:A-OPA4] forall i int, j int :: (0 <= i && i < len(violations) && 0 <= j && j < len(warnings) ==> violations[i] != warnings[j]) && (0 <= i && i < len(violations) && 0 <= j && j < len(infos) ==> violations[i] != infos[j]) && (0 <= i && i < len(warnings) && 0 <= j && j < len(infos) ==> warnings[i] != infos[j])
+//@   requires-assumed [C03:A-OPA8] forall i int :: (0 <= i && i < len(violations) ==> is(violations[i], map[string]any) && violations[i].(map[string]any) != nil) && (0 <= i && i < len(warnings) ==> is(warnings[i], map[string]any) && warnings[i].(map[string]any) != nil) && (0 <= i && i < len(infos) ==> is(infos[i], map[string]any) && infos[i].(map[string]any) != nil)
+//@   ensures [C03:count] len(result) == len(violations) + len(warnings) + len(infos)
+//@   ensures [C03:allocated] forall k int :: 0 <= k && k < len(result) ==> (is(result[k], map[string]any) && ref(result[k].(map[string]any)) <= alloc)
+//@   ensures [C03:violations] forall k int :: 0 <= k && k < len(violations) ==> (result[k] == violations[k] && result[k].(map[string]any)["resultSeverity"] == box(string, "http://www.w3.org/ns/shacl#Violation"))
+//@   ensures [C03:warnings] forall k int :: len(violations) <= k && k < len(violations) + len(warnings) ==> (result[k] == warnings[k - len(violations)] && result[k].(map[string]any)["resultSeverity"] == box(string, "http://www.w3.org/ns/shacl#Warning"))
+//@   ensures [C03:infos] forall k int :: len(violations) + len(warnings) <= k && k < len(result) ==> (result[k] == infos[k - len(violations) - len(warnings)] && result[k].(map[string]any)["resultSeverity"] == box(string, "http://www.w3.org/ns/shacl#Info"))
+//@   loop 1 /* for i, r := range violations */
+//@     invariant [C03] forall k int :: 0 <= k && k < len(results) ==> (is(results[k], map[string]any) && ref(results[k].(map[string]any)) <= alloc)
+//@     invariant [C03] len(results) == #i
+//@     invariant [C03] forall k int :: 0 <= k && k < #i ==> (results[k] == violations[k] && violations[k].(map[string]any)["resultSeverity"] == box(string, "http://www.w3.org/ns/shacl#Violation"))
+//@   loop 2 /* for i, r := range warnings */
+//@     invariant [C03] forall k int :: 0 <= k && k < len(results) ==> (is(results[k], map[string]any) && ref(results[k].(map[string]any)) <= alloc)
+//@     invariant [C03] len(results) == len(violations) + #i
+//@     invariant [C03] forall k int :: 0 <= k && k < len(violations) ==> (results[k] == violations[k] && violations[k].(map[string]any)["resultSeverity"] == box(string, "http://www.w3.org/ns/shacl#Violation"))
+//@     invariant [C03] forall k int :: len(violations) <= k && k < len(violations) + #i ==> (results[k] == warnings[k - len(violations)] && results[k].(map[string]any)["resultSeverity"] == box(string, "http://www.w3.org/ns/shacl#Warning"))
+//@   loop 3 /* for i, r := range infos */
+//@     invariant [C03] forall k int :: 0 <= k && k < len(results) ==> (is(results[k], map[string]any) && ref(results[k].(map[string]any)) <= alloc)
+//@     invariant [C03] len(results) == len(violations) + len(warnings) + #i
+//@     invariant [C03] forall k int :: 0 <= k && k < len(violations) ==> (results[k] == violations[k] && violations[k].(map[string]any)["resultSeverity"] == box(string, "http://www.w3.org/ns/shacl#Violation"))
+//@     invariant [C03] forall k int :: len(violations) <= k && k < len(violations) + len(warnings) ==> (results[k] == warnings[k - len(violations)] && results[k].(map[string]any)["resultSeverity"] == box(string, "http://www.w3.org/ns/shacl#Warning"))
+//@     invariant [C03] forall k int :: len(violations) + len(warnings) <= k && k < len(violations) + len(warnings) + #i ==> (results[k] == infos[k - len(violations) - len(warnings)] && results[k].(map[string]any)["resultSeverity"] == box(string, "http://www.w3.org/ns/shacl#Info"))
+
+//@ func ValidationReportNode(profileName string, results []any, conforms bool, validationConfig c.ValidationConfiguration, reportConfig c.ReportConfiguration) types.ObjectMap
+//@   requires [C03:conforms-iff-no-violation] conforms == (forall k int :: 0 <= k && k < len(results) ==> results[k].(map[string]any)["resultSeverity"] != box(string, "http://www.w3.org/ns/shacl#Violation"))
+//@   requires [C03:every-result-has-a-level-severity] forall k int :: 0 <= k && k < len(results) ==> (results[k].(map[string]any)["resultSeverity"] == box(string, "http://www.w3.org/ns/shacl#Violation") || results[k].(map[string]any)["resultSeverity"] == box(string, "http://www.w3.org/ns/shacl#Warning") || results[k].(map[string]any)["resultSeverity"] == box(string, "http://www.w3.org/ns/shacl#Info"))
+//@   ensures [C03:fresh] ref(result) > old(alloc)
+//@   ensures [C03:conforms] result["conforms"] == box(bool, conforms)
+//@   ensures [C03:profileName] result["profileName"] == box(string, profileName)
+//@   ensures [C03:result-iff-nonempty] has(result, "result") == (len(results) != 0)
+//@   ensures [C03:result-list] len(results) != 0 ==> result["result"] == box([]any, results)
+//@   ensures [C03:date-iff-configured] has(result, "dateCreated") == reportConfig.IncludeReportCreationTime
+//@   ensures [C03:id] result["@id"] == box(string, "validation-report")
+//@   ensures [C03:keys] forall k string :: has(result, k) ==> (k == "@id" || k == "@type" || k == "profileName" || k == "conforms" || k == "dateCreated" || k == "result")
+//@   ensures [C03:frame] forall m map[string]any :: ref(m) <= old(alloc) ==> unchanged(m)
+
+//@ func buildContext(emptyReport bool, reportConfig c.ReportConfiguration) types.ObjectMap
+//@   ensures [C03:frame] forall m map[string]any :: ref(m) <= old(alloc) ==> unchanged(m)
+//@   ensures [C03:fresh] ref(result) > old(alloc)
+
+//@ func DialectInstance(report *types.ObjectMap, context *types.ObjectMap) []types.ObjectMap
+//@   requires report != nil && context != nil
+//@   ensures [C03:one-instance] len(result) == 1 && result[0]["@id"] == box(string, "dialect-instance")
+//@   ensures [C03:frame] forall m map[string]any :: ref(m) <= old(alloc) ==> unchanged(m)
+
+//@ func BuildReport(resultPtr *rego.ResultSet, validationConfig c.ValidationConfiguration, reportConfig c.ReportConfiguration) (string, error)
+//@   verify [C03]
